@@ -5,6 +5,17 @@ import concurrent.futures, json, os, queue, shutil, subprocess, sys, tempfile
 VERIF = os.path.dirname(os.path.dirname(os.path.abspath(__file__)))
 SD = os.path.join(VERIF, 'seeded')
 ids = sorted(d for d in os.listdir(SD) if os.path.isdir(os.path.join(SD, d)))
+if '--table-only' in sys.argv:
+    # rewrite STATUS.md from the verdicts recorded in the meta.json files (no re-evaluation)
+    with open(os.path.join(SD, 'STATUS.md'), 'w') as fh:
+        fh.write('# Seeded changes (written by independent sub-agents, confirmed, then evaluated statically)\n\n')
+        fh.write('| id | property | change | verdict when first evaluated | verdict now |\n|---|---|---|---|---|\n')
+        for i in ids:
+            m = json.load(open(os.path.join(SD, i, 'meta.json')))
+            fh.write('| %s | %s | %s | %s | %s |\n' % (i, m['property'], m.get('title', '')[:90],
+                     (m.get('first_static_verdict') or m.get('static_check_verdict') or '?').split(' [')[0][:40], m.get('current_static_verdict', '?')))
+    print('STATUS.md rewritten from meta.json (%d seeds)' % len(ids))
+    sys.exit(0)
 if len(sys.argv) > 1:
     ids = [i for i in ids if any(i.startswith(a) for a in sys.argv[1:])]
 pool = queue.Queue(); dirs = []
@@ -19,7 +30,9 @@ def work(i):
         subprocess.check_call(['git', '-C', d, 'checkout', '-q', '--', '.']); subprocess.call(['git', '-C', d, 'clean', '-qfd'])
         r = subprocess.run(['git', '-C', d, 'apply', os.path.join(SD, i, 'patch.diff')], stdout=subprocess.PIPE, stderr=subprocess.STDOUT, text=True)
         if r.returncode != 0:
-            return i, meta, 'PATCH-DOES-NOT-APPLY'
+            # later fix: commits changed the surrounding code; the verdict of the last evaluation stands
+            prev = (meta.get('current_static_verdict') or meta.get('static_check_verdict') or 'PATCH-DOES-NOT-APPLY').split(' (patch no longer')[0]
+            return i, meta, prev + ' (patch no longer applies to HEAD; verdict of the last evaluation)'
         r = subprocess.run([os.path.join(VERIF, 'check'), meta['property'], '--no-evidence'], env=dict(os.environ, VERIF_REPO=d),
                            stdout=subprocess.PIPE, stderr=subprocess.STDOUT, text=True)
         rules = sorted({l.split()[1] for l in r.stdout.splitlines() if l.strip().startswith('rule ')})
